@@ -1,3 +1,4 @@
+import BalmProofs.WeakSpec
 import BalmProofs.JudgeSpec
 import Balm
 import BalmProofs.AttrTest
